@@ -21,3 +21,65 @@ Proof. exact lex_kinds. Qed.
 Print Assumptions C17_lexemes_concatenate_to_the_text.
 Print Assumptions C17_token_slices_concatenate_to_the_text.
 Print Assumptions C17_token_kinds_are_the_chunk_results.
+
+(* ---- the formatter's item generator (src/backend/format.rs, model Model/Fmt.v, tied to the code by
+   tools/k4_fmtmodel.py on every run).  For ALL trees and source texts.  `gen` is gen_cst: the list of
+   dprint-core print items, or the first panic.  What dprint-core's printer does with the items is
+   not modelled (trusted / tested).  Names are qualified because Fmt and Lexer both define `slice`. *)
+From LV Require Fmt FmtLemmas FmtProofs.
+
+Theorem C17_items_keep_the_content :
+  forall src t its, Fmt.gen src t = Fmt.Ok its ->
+  Fmt.nonws (FmtLemmas.strs its) = FmtProofs.content t.
+Proof. exact FmtProofs.fmt_content_preserved. Qed.
+
+Theorem C17_items_keep_the_non_whitespace_characters :
+  forall src t its, Fmt.gen src t = Fmt.Ok its -> FmtProofs.lexed t = true ->
+  Fmt.nonws (FmtLemmas.strs its) = Fmt.nonws (FmtProofs.leaves t).
+Proof. exact FmtProofs.fmt_nonws_preserved. Qed.
+
+Theorem C17_conditions_hold_signals_only :
+  forall src t its n tb fb, Fmt.gen src t = Fmt.Ok its -> In (Fmt.ICond n tb fb) its ->
+  FmtLemmas.cond_shape n tb fb /\ Forall FmtLemmas.is_sig tb /\ Forall FmtLemmas.is_sig fb.
+Proof. exact FmtProofs.fmt_conditions_hold_signals_only. Qed.
+
+Theorem C17_strings_have_no_tab_or_newline :
+  forall src t its s, Fmt.gen src t = Fmt.Ok its -> In (Fmt.IStr s) its ->
+  ~ In Fmt.b_tab s /\ ~ In Fmt.b_nl s.
+Proof. exact FmtProofs.fmt_strings_have_no_tab_or_newline. Qed.
+
+Theorem C17_indentation_balanced_on_every_paired_resolution :
+  forall src t its rho alpha k j, Fmt.gen src t = Fmt.Ok its ->
+  FmtLemmas.cnt FmtLemmas.is_si (FmtProofs.resolve rho alpha k j j its)
+  = FmtLemmas.cnt FmtLemmas.is_fi (FmtProofs.resolve rho alpha k j j its).
+Proof. exact FmtProofs.fmt_indentation_balanced. Qed.
+
+Theorem C17_alt_conditions_come_in_pairs :
+  forall src t its, Fmt.gen src t = Fmt.Ok its ->
+  FmtLemmas.cnt FmtLemmas.is_altA its = FmtLemmas.cnt FmtLemmas.is_altB its.
+Proof. exact FmtProofs.fmt_alt_conditions_paired. Qed.
+
+Theorem C17_newline_groups_balanced :
+  forall src t its rho alpha k ja jb, Fmt.gen src t = Fmt.Ok its ->
+  FmtLemmas.cnt FmtLemmas.is_sg (FmtProofs.resolve rho alpha k ja jb its)
+  = FmtLemmas.cnt FmtLemmas.is_fg (FmtProofs.resolve rho alpha k ja jb its).
+Proof. exact FmtProofs.fmt_newline_groups_balanced. Qed.
+
+Theorem C17_generator_returns_only_without_unreachable_kinds :
+  forall src t its, Fmt.gen src t = Fmt.Ok its -> FmtProofs.has_bad t = false.
+Proof. exact FmtProofs.fmt_ok_means_no_unreachable_kind. Qed.
+
+Theorem C17_unreachable_kind_is_the_panic :
+  forall src prev k cs, FmtProofs.bad_kind k = true ->
+  Fmt.gen_node src prev (Fmt.FRule k cs) = (Fmt.ICrash Fmt.CUnreachable :: nil).
+Proof. exact FmtProofs.fmt_unreachable_kind_crashes. Qed.
+
+Print Assumptions C17_items_keep_the_content.
+Print Assumptions C17_items_keep_the_non_whitespace_characters.
+Print Assumptions C17_conditions_hold_signals_only.
+Print Assumptions C17_strings_have_no_tab_or_newline.
+Print Assumptions C17_indentation_balanced_on_every_paired_resolution.
+Print Assumptions C17_alt_conditions_come_in_pairs.
+Print Assumptions C17_newline_groups_balanced.
+Print Assumptions C17_generator_returns_only_without_unreachable_kinds.
+Print Assumptions C17_unreachable_kind_is_the_panic.
